@@ -1,12 +1,12 @@
 #!/bin/bash
-# run every claimed check's quick (or $1) tier in parallel; print one summary line each
+# run every claimed check's quick (or $1) tier in parallel with seed $2 (default 0); print one summary line each
 cd "$(dirname "$0")/.."
 tier=${1:-quick}
 ids=$(python3 -c "import json;print(' '.join(c['property_id'] for c in json.load(open('MANIFEST.json'))['checks']))")
 mkdir -p /tmp/dsv-runall
 (cd lean && lake build >/dev/null 2>&1)
 for id in $ids; do
-  ( timeout 3600 ./check $id --tier $tier > /tmp/dsv-runall/$id.log 2>&1; echo "$id exit=$? $(grep -v KNOWN /tmp/dsv-runall/$id.log | tail -1)" ) &
+  ( VERIF_SEED=${2:-0} timeout 3600 ./check $id --tier $tier > /tmp/dsv-runall/$id.log 2>&1; echo "$id exit=$? $(grep -v KNOWN /tmp/dsv-runall/$id.log | tail -1)" ) &
   # limit parallelism
   while [ $(jobs -r | wc -l) -ge 6 ]; do sleep 0.5; done
 done
